@@ -64,8 +64,11 @@ Qed.
        returned bound is strictly below the true regret (while the bound itself dominates) *)
 Theorem C02_factor_two_needed :
   forall draw : @oracle RNum,
-  exists (g : @game RNum) budget stop strats b1 b2 ran,
-    WFgame g /\ PerfectRecall g /\ ChanceOK g /    @solve_single RNum g Full draw (@p_vanilla RNum) budget stop = (strats, Some (b1, b2), ran) /    Rmax b1 b2 / 2 < @si_regret RNum (@info RNum g strats) /    @si_regret RNum (@info RNum g strats) <= Rmax b1 b2.
+  exists (g : @game RNum) (budget : nat) (stop : R -> bool) (strats : list R * list R) (b1 b2 : R) (ran : N),
+    WFgame g /\ PerfectRecall g /\ ChanceOK g /\
+    @solve_single RNum g Full draw (@p_vanilla RNum) budget stop = (strats, Some (b1, b2), ran) /\
+    Rmax b1 b2 / 2 < @si_regret RNum (@info RNum g strats) /\
+    @si_regret RNum (@info RNum g strats) <= Rmax b1 b2.
 Proof. exact halved_bound_refuted_closed. Qed.
 
 (** Non-vacuity: matching pennies. *)
